@@ -116,12 +116,12 @@ func msgFor(typ uint64, mask int, vi int) gen.Msg {
 		m.Fanout = gen.U64(v(3))
 	}
 	if mask&32 != 0 {
-		m.Mode = gen.U32(c09Modes[vi%len(c09Modes)])
+		m.Mode = gen.U32(c09Modes[(vi+mask)%len(c09Modes)])
 	}
 	if mask&64 != 0 {
-		t := &gen.Time{Seconds: c09Secs[vi%len(c09Secs)]}
-		if vi%3 != 0 {
-			t.Nanos = gen.U32(c09Nanos[(vi/3)%len(c09Nanos)])
+		t := &gen.Time{Seconds: c09Secs[(vi+mask)%len(c09Secs)]}
+		if (vi+mask)%3 != 0 {
+			t.Nanos = gen.U32(c09Nanos[(vi+mask/3)%len(c09Nanos)])
 		}
 		m.Mtime = t
 	}
